@@ -64,8 +64,9 @@ PLANS = {
     },
     "C04": {
         "quick": [ex("peg2", "peg", 2, 3), ex("emit3", "emit", 3, 3), ex("ctx2", "ctx", 2, 3), ex("stat", "stat", 1, 3, kinds=["static"]),
-                  ex("extT", "extT", 1, 4, alphabet=["a", "b", "c"], etys=["rich", "simple"]), ex("progT", "progT", 1, 3, alphabet=["a", "b", "!"]), rec("emitR", "emit", 1500, 8, 8), rec("pegR", "peg", 1000, 8, 8), rec("ctxR", "ctx", 1000, 8, 8)],
-        "thorough": [ex("peg3", "peg", 3, 3), ex("emit4", "emit", 4, 3), ex("ctx3", "ctx", 3, 3), rec("emitR", "emit", 20000, 10, 10), rec("pegR", "peg", 20000, 10, 10), rec("ctxR", "ctx", 10000, 10, 10)],
+                  ex("extT", "extT", 1, 4, alphabet=["a", "b", "c"], etys=["rich", "simple"]), ex("progT", "progT", 1, 3, alphabet=["a", "b", "!"]), rec("emitR", "emit", 1500, 8, 8), rec("pegR", "peg", 1000, 8, 8), rec("ctxR", "ctx", 1000, 8, 8),
+                  ex("iiT", "iiT", 1, 3, alphabet=["a", ","]), {"kind": "regex", "name": "regex", "len": 2}],
+        "thorough": [ex("iiT", "iiT", 1, 4, alphabet=["a", ","]), {"kind": "regex", "name": "regex", "len": 4}, ex("peg3", "peg", 3, 3), ex("emit4", "emit", 4, 3), ex("ctx3", "ctx", 3, 3), rec("emitR", "emit", 20000, 10, 10), rec("pegR", "peg", 20000, 10, 10), rec("ctxR", "ctx", 10000, 10, 10)],
     },
     "C05": {
         "quick": [ex("emit4", "emit", 4, 3), ex("rcvE", "rcvE", 1, 4, alphabet=["a", "b", "!"], modes=["E"]), ex("rcv3", "rcv", 3, 3, modes=["E"]),
